@@ -387,7 +387,12 @@ impl<'a> Gen<'a> {
             }
             3 if d == Dialect::Postgres && self.rng.coin() => {
                 let t = |g: &mut Self| g.scalar(scope, K::T, depth - 1);
-                Some(match self.rng.below(8) {
+                Some(match self.rng.below(10) {
+                    8 => {
+                        let unit = *self.rng.pick(&["microseconds", "milliseconds", "second", "minute", "hour", "day", "week", "month", "quarter", "year", "decade", "century", "millennium"]);
+                        X::Func("DATE_TRUNC", vec![X::Text(unit.into()), t(self)])
+                    }
+                    9 => X::Func("ARRAY_AGG_DISTINCT", vec![self.scalar(scope, k, depth - 1)]),
                     0 => {
                         let f = *self.rng.pick(&["TO_TSQUERY", "TO_TSVECTOR", "PHRASETO_TSQUERY", "PLAINTO_TSQUERY", "WEBSEARCH_TO_TSQUERY"]);
                         if self.rng.coin() {
@@ -439,6 +444,14 @@ impl<'a> Gen<'a> {
             let l = self.scalar(scope, k, 0);
             let r = self.scalar(scope, k, 0);
             return X::Bin(b(l), *self.rng.pick(&[BinOper::Equal, BinOper::SmallerThan, BinOper::GreaterThanOrEqual]), b(r));
+        }
+        if !self.cfg.exec && self.cfg.is(Dialect::Postgres) && self.rng.chance(1, 25) {
+            // comparison with ANY / SOME / ALL of an array value (PgFunc)
+            let l = self.scalar(scope, K::I, depth - 1);
+            self.tag += 1;
+            let arr = X::Val(Value::Array(sea_query::ArrayType::Int, Some(Box::new(vec![Value::Int(Some(self.tag as i32)), Value::Int(Some(3))]))));
+            let f = *self.rng.pick(&["ANY", "SOME", "ALL"]);
+            return X::Bin(b(l), *self.rng.pick(&[BinOper::Equal, BinOper::NotEqual, BinOper::SmallerThan]), b(X::Func(f, vec![arr])));
         }
         if !self.cfg.exec && self.cfg.is(Dialect::Postgres) && self.rng.chance(1, 12) {
             use sea_query::extension::postgres::PgBinOper;
